@@ -169,7 +169,8 @@ ACTS = {
     'SIR_FixedRecovery.infect': ['CCL INFECTED', 'OCC', 'HIT', 'POSTL T SIR.remove'],
     'SIS_FixedRecovery.infect': ['CCL INFECTED', 'OCC', 'HIT', 'POSTL T SIS.recover'],
     'Opinion.affect': ['CCL SPREADER', 'OCC', 'HIT'], 'Opinion.stifle': ['CCL STIFLER'],
-    'VarInfFixed.infect': ['CCL INFECTED', 'OCC', 'HIT', 'POSTL T SIR.remove'],       # a user process of the harness (simprofiles.VarInfFixed)
+    'VarInfFixed.infect': ['CCL INFECTED', 'OCC', 'HIT', 'POSTL T SIR.remove'],
+    'Isolate.isolate': ['CCL REMOVED'],                                                 # a user process acting on a sibling's locus (simprofiles.Isolate)       # a user process of the harness (simprofiles.VarInfFixed)
     'Monitor.observe': ['OBSERVE'],
     'AddDelete.add': ['ADADD'], 'AddDelete.delete': ['ADDEL'],
     'SIvR.infect': ['SIVR'], 'SIvR.remove': ['CCL REMOVED', 'PLEAVE INFECTED_V', 'PLEAVE INFECTED_N'], 'Vaccinate.vaccinate': ['VACC'],
@@ -331,7 +332,8 @@ class Extract:
             f = getattr(ef, '_orig', ef)
             sp = f.__self__ if hasattr(f, '__self__') else None
             raise AssertionError("scripted handlers are registered by register_script")
-        i = self.inst.get(id(p)); ci = self.cidx.get(id(p)); cls = type(p)
+        tp = getattr(p, '_vp_target', None) or p          # a process that acts on a sibling compartmented model names it here
+        i = self.inst.get(id(tp)); ci = self.cidx.get(id(tp)); cls = type(tp)
         acts = []
         rep = qn.endswith('#repeat')
         if rep:
@@ -632,6 +634,16 @@ def run_case(case):
 
         def eventRateDistribution(self, t):
             tr = super().eventRateDistribution(t)
+            # C02: the rates the dynamics works with are those of every registered event of every component: probability x current
+            # locus size for per-element events, the probability itself for fixed-rate ones, in registration order
+            want = []
+            for q in self._process.allProcesses():
+                want += [(lkey(l), pr * len(l), fkey(f)) for (l, pr, f, nm) in q.perElementEventDistribution(t)]
+            for q in self._process.allProcesses():
+                want += [(lkey(l), pr, fkey(f)) for (l, pr, f, nm) in q.fixedRateEventDistribution(t)]
+            have = [(lkey(l), r, fkey(f)) for (l, r, f, nm) in tr]
+            if have != want and not any(o[0] == 'gillespie' for o in info['oracle']):
+                info['oracle'].append(('gillespie', f"the dynamics' event rates {have} are not those of the registered events {want}"))
             st['gil'] = dict(t=t, tr=[(l, r, getattr(f, '_orig', f), nm) for (l, r, f, nm) in tr], mark=len(sr.recent))
             return tr
 
@@ -640,6 +652,9 @@ def run_case(case):
             per = [(l, p, getattr(f, '_orig', f), nm, list(l)) for (l, p, f, nm) in self.perElementEventDistribution(t)]
             fix = [(l, p, getattr(f, '_orig', f), nm, len(l)) for (l, p, f, nm) in self.fixedRateEventDistribution(t)]
             mark = len(sr.recent); imark = len(sr.lines)
+            due = [ev[0] for ev in self._postedEventFinder.values() if ev[0] <= t]
+            if due and not any(o[0] == 'sync' for o in info['oracle']):
+                info['oracle'].append(('sync', f"the trials of timestep {t} are drawn while a posted event due at {min(due)} has not fired yet"))
             check_skipped()
             evs = super().allEventsInTimestep(t)
             st['tranche'] = [(l, e, fkey(f)) for (l, e, f, nm) in evs]
